@@ -178,11 +178,16 @@ func init() {
 		MaxWorkers:  8,
 		Plan: func(tier core.Tier, seed int64) int {
 			if tier == core.Thorough {
-				return 10000 + c08OverlapCases*8
+				return 10000 + c08OverlapCases*8 + c08SibCases*8
 			}
-			return 96 + c08OverlapCases
+			return 96 + c08OverlapCases + c08SibCases
 		},
 		Run: func(c *core.Ctx, idx int) {
+			if n := map[bool]int{false: 96 + c08OverlapCases, true: 10000 + c08OverlapCases*8}[c.Tier == core.Thorough]; idx >= n {
+				// delete events of an entity with data in two sibling child stores
+				siblingScenario(c, idx-n, "C08")
+				return
+			}
 			if n := map[bool]int{false: 96, true: 10000}[c.Tier == core.Thorough]; idx >= n {
 				// commit actions once per committed transaction, also when the context's next transaction starts while they run
 				overlapCase(c, idx-n, "C08")
@@ -200,6 +205,7 @@ func init() {
 }
 
 const c08OverlapCases = 12
+const c08SibCases = 12
 
 func runC08(c *core.Ctx, idx int) {
 	r := c.Rand()
